@@ -27,6 +27,7 @@ def handle (line : String) : String :=
   else if l.startsWith "config " then handleConfig l
   else if l.startsWith "verdict " then handleVerdict l
   else if l.startsWith "suite " then handleSuite l
+  else if l.startsWith "isolation " then handleIsolation l
   else if l.startsWith "label " then handleLabel l
   else if l.startsWith "labelfile " then handleLabelFile l
   else if l.startsWith "idx " then handleIdx l
